@@ -14,9 +14,10 @@ GB = os.path.join(V.SPEC, 'avoid', 'GeomBig.tla')
 
 
 def stats(out):
+    seen = {(m.group(1), int(m.group(2))): int(m.group(3)) for m in re.finditer(r'<<"STAT", "(\w+)", (\d+), (\d+)>>', out)}
     tot = {}
-    for m in re.finditer(r'<<"STAT", "(\w+)", (\d+), (\d+)>>', out):
-        tot[m.group(1)] = tot.get(m.group(1), 0) + int(m.group(3))
+    for (k, _), v in seen.items():
+        tot[k] = tot.get(k, 0) + v
     return tot
 
 
